@@ -1,7 +1,7 @@
 (* C14 - the property theorems, nothing else.  Each is closed by [exact] of a lemma proved in coq/Persist/*Proofs.v
    and followed by Print Assumptions. *)
 From Icv Require Import Base.Tac Persist.PsValue Persist.PsModel Persist.PsValueProofs
-  Persist.PsAtomicProofs Persist.PsRestoreProofs Persist.PsRoundtripProofs Persist.PsStateProofs.
+  Persist.PsAtomicProofs Persist.PsRestoreProofs Persist.PsRoundtripProofs Persist.PsStateProofs Persist.PsModattrProofs.
 From Coq Require Import NArith.
 Local Open Scope N_scope.
 
@@ -107,6 +107,33 @@ Theorem C14_restore_unmodified_noop : forall fe attr updv now o,
 Proof. exact ps_restore_unmodified_noop. Qed.
 Print Assumptions C14_restore_unmodified_noop.
 
+(* ---------------------------------------------------------------- modified attributes across a restart *)
+(* DumpModifiedAttributes of the running object [cur], the written script replayed on the object as configured
+   [base]: the dump succeeds, the replay succeeds, every attribute has the value it had before the restart,
+   original_attributes lists the same entries with the same originals, and the version is restored - for every object
+   whose original_attributes entries are top-level attribute names ([ps_top_ok]: no dot in the key, a modifiable config
+   field holding a value of its type, and the value survives the config writer, see C14_modattr_six_decimals).
+   The premise "top-level" excludes the nested per-key recording (findings restore-dict-original, restore-overlap,
+   modattr-dump-throws); the premise on the writer excludes finding modattr-number-precision. *)
+Theorem C14_modattr_roundtrip : forall fe cur base ver now,
+  ps_orig_dict base = [] ->
+  (forall k, ps_dcontains k (ps_orig_dict cur) = true -> ps_top_ok fe cur k) ->
+  (forall k x, ps_dget_opt k (ps_orig_dict cur) = Some x -> x = ps_dget k (ps_m_fields base)) ->
+  (forall f, ps_dcontains f (ps_orig_dict cur) = false -> ps_dget f (ps_m_fields cur) = ps_dget f (ps_m_fields base)) ->
+  exists script r,
+    ps_dump_modattrs cur = Some script /\ ps_replay_modattrs fe script ver now base = (true, r) /\
+    (forall f, ps_dget f (ps_m_fields r) = ps_dget f (ps_m_fields cur)) /\
+    (forall k, ps_dget_opt k (ps_orig_dict r) = ps_dget_opt k (ps_orig_dict cur)) /\
+    (ps_orig_dict cur <> [] -> ps_m_version r = ver).
+Proof. exact ps_modattr_roundtrip. Qed.
+Print Assumptions C14_modattr_roundtrip.
+
+(* values all of whose numbers have at most six fractional digits (any nesting of arrays and dictionaries) come back
+   unchanged from ConfigWriter::EmitNumber + lexer *)
+Theorem C14_modattr_six_decimals : forall v, ps_six v = true -> ps_writer_codec v = v.
+Proof. exact ps_six_codec. Qed.
+Print Assumptions C14_modattr_six_decimals.
+
 Theorem C14_modattr_dump_throws_refuted :
   let o := ps_w_obj (PsDict [([97], PsDict [([120], PsNum 1 0)])]) in
   let o1 := snd (ps_modify_attribute ps_w_fe ps_w_path_a (PsNum 5 0) true 1%Z o) in
@@ -140,6 +167,14 @@ Print Assumptions C14_atomic_oracle_accepts_model.
 
 (* non-vacuity: the premises of C14_restore are met by a nested path whose leaf does not exist; the value at the path
    returns to null, while the enclosing dictionary keeps a null entry (observation "null leaf") *)
+Example C14_modattr_nonvacuous :
+  ps_orig_dict ps_r_base = [] /\
+  ps_orig_dict ps_r_cur <> [] /\
+  (forall k, ps_dcontains k (ps_orig_dict ps_r_cur) = true -> ps_top_ok ps_r_fe ps_r_cur k) /\
+  (forall k x, ps_dget_opt k (ps_orig_dict ps_r_cur) = Some x -> x = ps_dget k (ps_m_fields ps_r_base)) /\
+  (forall f, ps_dcontains f (ps_orig_dict ps_r_cur) = false -> ps_dget f (ps_m_fields ps_r_cur) = ps_dget f (ps_m_fields ps_r_base)).
+Proof. exact ps_modattr_roundtrip_nonvacuous. Qed.
+
 Example C14_state_nonvacuous :
   let cr := PsObj [67] [([111], PsStr [120]); ([112], PsArr [PsDict [([97], PsNum 5 1)]; PsEmpty])] in
   let objs := [ps_s_host [1] (PsStr [99]) (PsNum 2 0) cr; ps_s_host [2] (PsStr [100]) (PsNum 1 0) PsEmpty] in
